@@ -323,6 +323,84 @@ func init() {
 	addMisuse("debugguard", "Map.GetRelation missing component", func(d *Drv, op *Op, h, _ ecs.Entity) {
 		d.Maps[u.RelIdx[op.N%3]].GetRelation(h)
 	})
+	// the same patterns for every generated query arity: op.Tuple is a typed tuple contained in the victim's composition
+	// (the result is non-empty), cached and uncached
+	derefable := func(op *Op) {
+		for _, c := range typed.Tuples[op.Tuple].Comps {
+			if !u.Types[c].ZeroSize {
+				return
+			}
+		}
+		panic(skipMisuse{}) // only zero-size components: nothing to dereference, in any build
+	}
+	tq := func(d *Drv, op *Op, cached bool) (typed.TFilter, typed.TQuery) {
+		f := typed.Tuples[op.Tuple].NewFilter(d.W, false)
+		if cached {
+			f.Register()
+		}
+		return f, f.Query(nil)
+	}
+	for _, cached := range []bool{false, true} {
+		cached := cached
+		name := map[bool]string{false: "", true: " (cached filter)"}[cached]
+		fin := func(f typed.TFilter, q typed.TQuery) {
+			q.Close()
+			if cached {
+				f.Unregister()
+			}
+		}
+		addMisuse("debugguardN", "QueryN.Entity after exhaustion"+name, func(d *Drv, op *Op, h, _ ecs.Entity) {
+			f, q := tq(d, op, cached)
+			defer fin(f, q)
+			for q.Next() {
+			}
+			sink = int64(q.Entity().ID())
+		})
+		addMisuse("debugguardN", "QueryN.Entity after early Close"+name, func(d *Drv, op *Op, h, _ ecs.Entity) {
+			f, q := tq(d, op, cached)
+			defer fin(f, q)
+			q.Next()
+			q.Close()
+			sink = int64(q.Entity().ID())
+		})
+		addMisuse("debugguardN", "QueryN.Get+deref after early Close"+name, func(d *Drv, op *Op, h, _ ecs.Entity) {
+			derefable(op)
+			f, q := tq(d, op, cached)
+			defer fin(f, q)
+			q.Next()
+			q.Close()
+			ptrs := q.Get()
+			for j, c := range typed.Tuples[op.Tuple].Comps {
+				if !u.Types[c].ZeroSize {
+					v, _ := u.Types[c].Dec(ptrs[j])
+					sink = v
+				}
+			}
+			// reaching this point means the dereference did not panic: the row returns normally and is reported
+		})
+		addMisuse("debugguardN", "QueryN.Get+deref after exhaustion"+name, func(d *Drv, op *Op, h, _ ecs.Entity) {
+			derefable(op)
+			f, q := tq(d, op, cached)
+			defer fin(f, q)
+			for q.Next() {
+			}
+			ptrs := q.Get()
+			for j, c := range typed.Tuples[op.Tuple].Comps {
+				if !u.Types[c].ZeroSize {
+					v, _ := u.Types[c].Dec(ptrs[j])
+					sink = v
+				}
+			}
+			// reaching this point means the dereference did not panic: the row returns normally and is reported
+		})
+		addMisuse("debugguardN", "QueryN.Next after exhaustion"+name, func(d *Drv, op *Op, h, _ ecs.Entity) {
+			f, q := tq(d, op, cached)
+			defer fin(f, q)
+			for q.Next() {
+			}
+			q.Next()
+		})
+	}
 	// ---- structural operations on a locked world (h is an alive entity; the generator only picks these while a query is open)
 	lockedOps := map[string]func(d *Drv, op *Op, h, aux ecs.Entity){
 		"World.NewEntity":    func(d *Drv, op *Op, h, _ ecs.Entity) { d.W.NewEntity() },
@@ -443,7 +521,7 @@ func (d *Drv) staleHandle(kind int, pick int) (ecs.Entity, bool) {
 // misuse executes a KMisuse op: op.Slot = table row, op.Sub = stale kind, op.E = victim (alive) entity, op.N = pick.
 func (d *Drv) misuse(op *Op) {
 	mc := &MisuseTable[op.Slot]
-	if mc.Class == "debugguard" && !d.Headroom() {
+	if (mc.Class == "debugguard" || mc.Class == "debugguardN") && !d.Headroom() {
 		panic(skipMisuse{})
 	}
 	var h, aux ecs.Entity
